@@ -532,6 +532,7 @@ func runC07(e *Engine, r *Report) {
 		}
 	}
 	borrow(e, r, "C08", "MPT-restore-replaces")
+	ruleAddressScanAllKinds(e, r)
 }
 
 // isRangeKeyOf: key is the key produced by ranging over the same map field.
